@@ -20,6 +20,7 @@ import (
 
 	"github.com/iotaledger/hive.go/ierrors"
 	"github.com/iotaledger/hive.go/kvstore"
+	"github.com/iotaledger/hive.go/kvstore/debug"
 	"github.com/iotaledger/hive.go/kvstore/flushkv"
 	"github.com/iotaledger/hive.go/kvstore/mapdb"
 )
@@ -1387,9 +1388,56 @@ func probeAliasing(r *hx.Run) {
 	}
 }
 
+// probeCopyErrorPaths: the error paths of kvstore.Copy / kvstore.CopyBatched that no history reaches over mapdb (whose only
+// error is ErrStoreClosed, and a store that is closed before the copy makes the first call fail).  Here the target is closed
+// DURING the copy, by the callback of a debug wrapper on the target (the first Set / batch Set it reports closes the store).
+// Copy stops at the first failing Set and returns ErrStoreClosed.  CopyBatched with a batch size: the Commit of the first
+// batch fails, so does the `target.Batched()` that follows it - and the function then calls Cancel on the nil interface it
+// got back.  Nothing of this is in the statement (which speaks of the calls on views and batches: each of them does fail with
+// ErrStoreClosed); it is recorded as an observation.
+func probeCopyErrorPaths(r *hx.Run) {
+	mk := func() (kvstore.KVStore, kvstore.KVStore) {
+		src := mapdb.NewMapDB()
+		for i := byte(0); i < 3; i++ {
+			_ = src.Set([]byte{i}, []byte{i})
+		}
+		bare := mapdb.NewMapDB()
+		closed := false
+
+		return src, debug.New(bare, func(cmd debug.Command, _ ...[]byte) {
+			if cmd == debug.SetCommand && !closed {
+				closed = true
+				_ = bare.Close()
+			}
+		})
+	}
+	src, dst := mk()
+	var err error
+	p := hx.Safely(func() { err = kvstore.Copy(src, dst) })
+	r.Extra["observation_Copy_target_closed_during_copy"] = map[string]any{"panic": p, "answer": errAns(err)}
+	if p != "" || errAns(err) != "closed" {
+		r.Fail("ordered-map-contract", fmt.Sprintf("Copy into a target that is closed by the first Set: panic %q, answer %s, want closed", p, errAns(err)),
+			map[string]string{"op": "copy", "want": "closed", "got": errAns(err), "probe": "closed-during-copy"})
+	}
+	src, dst = mk()
+	err = nil
+	p = hx.Safely(func() { err = kvstore.CopyBatched(src, dst) })
+	r.Extra["observation_CopyBatched_one_batch_target_closed_during_copy"] = map[string]any{"panic": p, "answer": errAns(err)}
+	if p != "" || errAns(err) != "closed" {
+		r.Fail("ordered-map-contract", fmt.Sprintf("CopyBatched (one batch) into a target that is closed by the first Set: panic %q, answer %s, want closed", p, errAns(err)),
+			map[string]string{"op": "copyb", "want": "closed", "got": errAns(err), "probe": "closed-during-copy"})
+	}
+	src, dst = mk()
+	err = nil
+	p = hx.Safely(func() { err = kvstore.CopyBatched(src, dst, 1) })
+	r.Extra["observation_CopyBatched_batch_size_1_target_closed_during_copy_panics"] = p != ""
+	r.Extra["observation_CopyBatched_batch_size_1_target_closed_during_copy"] = map[string]any{"panic": p, "answer": errAns(err)}
+}
+
 func main() {
 	r := hx.Start()
 	probeAliasing(r)
+	probeCopyErrorPaths(r)
 	r.Rule = "pure-helper stream (KeyPrefixUpperBound over all prefixes of length <= 4 over {00,01,7f,fe,ff}, ConcatBytes, CopyBytes, " +
 		"GetIterDirection) + random histories (40 ops; every second one over TWO store trees with Copy/CopyBatched between and within them) over view trees of depth <= 3 and wrapper stacks of depth <= 3, keys/prefixes/realms over " +
 		"{00,01,7f,ff} of length 0..3, values of length 0..4, both directions + default; non-trivial = at least two distinct " +
